@@ -7,7 +7,7 @@
 From Coq Require Import List ZArith Bool Lia Permutation.
 From SVC Require Import Base.AMap Base.Res Base.Dec Model.Types Model.Pricing
   Model.Handlers Model.EndBlock Model.Step Proofs.Inv Proofs.Lemmas Proofs.ReqLemmas
-  Proofs.DecProofs Proofs.PricingProofs Proofs.CtxOps Proofs.InvEscrow Proofs.InvReq
+  Proofs.DecProofs Proofs.PricingProofs Proofs.CtxOps Proofs.InvSched Proofs.InvEscrow Proofs.InvReq
   Proofs.InvAll Proofs.ReachRun.
 Import ListNotations.
 Open Scope Z_scope.
@@ -652,3 +652,74 @@ Proof.
   - intros r q G. destruct (I2 r q G) as [G0|(k & [p price] & Hk & Hr & Hq)]; [now left|right].
     exists k, p, price. auto.
 Qed.
+
+(* ------------------------------------------------------------------ *)
+(* the new-batch phase of a whole EndBlock *)
+
+(* what the new-batch handler does to the request and response records *)
+Lemma new_one_cases cfg s c :
+  wf_cfg cfg -> Inv cfg s -> In (height s, c) (newq s) -> height s < HEIGHT_BOUND ->
+  no_issue c s (new_one cfg s c)
+  \/ exists rc, get c (ctxs s) = Some rc
+       /\ issued c rc (filter_providers s rc (c_provs rc)) s (new_one cfg s c).
+Proof.
+  intros Hcfg Hinv Hdue Hh.
+  destruct (C06_batch_spec cfg s c Hcfg Hinv Hdue Hh) as (rc & Grc & HS). cbv zeta in HS.
+  destruct HS as (Ha & Hb & Hc & Hd & He).
+  set (E := filter_providers s rc (c_provs rc)) in *.
+  destruct (d5 rc) eqn:Ed5; [left; apply Hb; reflexivity|].
+  destruct (is_state rc Running) eqn:Est.
+  2:{ left. apply is_state_false in Est. apply Ha, Est. }
+  apply is_state_true in Est.
+  destruct (Z_lt_le_dec 0 (len E)) as [H0|H0].
+  2:{ left. apply (Hc Est eq_refl). left. unfold len in *. lia. }
+  destruct (Z_lt_le_dec (len E) (c_thr rc)) as [Ht|Ht].
+  { left. apply (Hc Est eq_refl). now right. }
+  destruct (c_super rc) eqn:Esup; [right; exists rc; split; [exact Grc|]; apply He; auto|].
+  destruct (Z_lt_le_dec (bal s (User (c_cons rc))) (sum_prices E)) as [Hb'|Hb'].
+  - left. apply (Hd Est eq_refl H0 Ht eq_refl Hb').
+  - right. exists rc. split; [exact Grc|]. apply He; auto.
+Qed.
+
+Lemma new_one_reqs cfg s c :
+  wf_cfg cfg -> Inv cfg s -> In (height s, c) (newq s) -> height s < HEIGHT_BOUND ->
+  (forall r q, get r (reqs s) = Some q -> get r (reqs (new_one cfg s c)) = Some q)
+  /\ (forall r, get r (reqs s) = None -> rid_height r <> height s ->
+        get r (reqs (new_one cfg s c)) = None)
+  /\ resps (new_one cfg s c) = resps s.
+Proof.
+  intros Hcfg Hinv Hdue Hh.
+  destruct (new_one_cases cfg s c Hcfg Hinv Hdue Hh) as [(R & P & _)|(rc & Grc & HI)].
+  - rewrite R, P. auto.
+  - destruct HI as (_ & I2 & I3 & _ & _ & _ & I7 & _).
+    split; [exact I3|]. split; [|exact I7].
+    intros r Hn Hh'. destruct (get r (reqs (new_one cfg s c))) as [q|] eqn:G; [|reflexivity].
+    destruct (I2 _ _ G) as [G0|(k & pp & _ & -> & _)]; [congruence|].
+    exfalso. apply Hh'. reflexivity.
+Qed.
+
+Lemma fold_new_records cfg l s r :
+  wf_cfg cfg -> Inv cfg s -> height s < HEIGHT_BOUND -> NoDup l ->
+  (forall c, In c l -> In (height s, c) (newq s)) ->
+  let s' := fold_left (new_one cfg) l s in
+  (forall q, get r (reqs s) = Some q -> get r (reqs s') = Some q)
+  /\ (get r (reqs s) = None -> rid_height r <> height s -> get r (reqs s') = None)
+  /\ resps s' = resps s.
+Proof.
+  intros Hcfg. revert s. induction l as [|a l IH]; intros s Hi Hb Hn Hl; cbn [fold_left]; cbv zeta.
+  - auto.
+  - inversion Hn as [|? ? Hna Hn']; subst.
+    assert (Hda : In (height s, a) (newq s)) by (apply Hl; now left).
+    pose proof (Inv_new_one cfg s a Hcfg Hi Hda Hb) as Hi1.
+    pose proof (height_new_one cfg s a Hcfg Hi Hda Hb) as Eh.
+    pose proof (newq_after_new_one cfg s a Hcfg Hi Hda Hb) as Eq.
+    destruct (new_one_reqs cfg s a Hcfg Hi Hda Hb) as (N1 & N2 & N3).
+    destruct (IH (new_one cfg s a) Hi1) as (K1 & K2 & K3); try assumption.
+    + now rewrite Eh.
+    + intros c Hc. rewrite Eh. apply Eq. split; [apply Hl; now right|]. intros ->. contradiction.
+    + cbv zeta in K1, K2, K3. split; [|split].
+      * intros q G. apply K1, N1, G.
+      * intros G Hh'. apply K2; [now apply N2|now rewrite Eh].
+      * now rewrite K3.
+Qed.
+
